@@ -40,7 +40,8 @@ def main():
         mid = os.path.basename(d)
         prop = mid.split("_")[0]
         sh("git checkout -q -- . && git clean -fdq -e target", cwd=wt)
-        rc, out = sh("git apply %s" % os.path.join(d, "patch.diff"), cwd=wt)
+        patch = os.path.join(d, "rebased.diff") if os.path.exists(os.path.join(d, "rebased.diff")) else os.path.join(d, "patch.diff")
+        rc, out = sh("git apply %s" % patch, cwd=wt)
         if rc != 0:
             print("%s patch-does-not-apply" % mid, flush=True)
             results.append({"id": mid, "check": prop, "rc": None, "note": "patch does not apply"})
